@@ -10,6 +10,7 @@ package main
 
 import (
 	"fmt"
+	"math"
 	"time"
 
 	sio "github.com/karagenc/socket.io-go"
@@ -18,6 +19,7 @@ import (
 	vx "github.com/karagenc/socket.io-go/internal/vexplore"
 	"github.com/karagenc/socket.io-go/internal/vrig"
 	"github.com/karagenc/socket.io-go/internal/vsched"
+	"github.com/karagenc/socket.io-go/parser"
 	jsonparser "github.com/karagenc/socket.io-go/parser/json"
 	"github.com/karagenc/socket.io-go/parser/json/serializer/stdjson"
 )
@@ -269,6 +271,15 @@ var adOps = []adOp{
 	{"FetchSockets", func(a adapter.Adapter) { a.FetchSockets(adOpts("r1")) }},
 	{"AddSockets", func(a adapter.Adapter) { a.AddSockets(adOpts(), "r3") }},
 	{"DisconnectSockets", func(a adapter.Adapter) { a.DisconnectSockets(adOpts("r1"), false) }},
+	{"Broadcast", func(a adapter.Adapter) {
+		a.Broadcast(&parser.PacketHeader{Type: parser.PacketTypeEvent, Namespace: "/"}, []any{"ev", 1}, adOpts("r1"))
+	}},
+	// the parser cannot encode NaN: Broadcast panics by design; the application recovers (the library
+	// itself recovers handler panics), and nothing may be left locked behind
+	{"Broadcast-unencodable-recovered", func(a adapter.Adapter) {
+		defer func() { recover() }()
+		a.Broadcast(&parser.PacketHeader{Type: parser.PacketTypeEvent, Namespace: "/"}, []any{"ev", math.NaN()}, adOpts("r1"))
+	}},
 }
 
 func adPair(x, y adOp, sessionAware bool, bound int) *vx.Scenario {
@@ -333,7 +344,7 @@ func main() {
 	vx.Main(vx.Config{
 		Property:  "C16",
 		Level:     "model_checking",
-		Rule:      "every unordered pair (incl. an operation with itself) of operations from a 26-operation server alphabet (API calls and incoming traffic) over harness-implemented Engine.IO sockets, an 18-operation Go-client alphabet (a manager with two connected sockets; incl. the link breaking, which starts the reconnection machinery) over the in-process polling link and an 8-operation adapter alphabet (in-memory and session-aware) as a two-thread program, plus every server operation issued from inside an event handler, a disconnecting handler and an ack callback against two concurrent operations; all schedules to the deviation bound, each judged by the race detector (reports whose racing access lies in repository code), the deadlock detector and the held-mutex check. distinct_nontrivial = deviating schedules",
+		Rule:      "every unordered pair (incl. an operation with itself) of operations from a 26-operation server alphabet (API calls and incoming traffic) over harness-implemented Engine.IO sockets, an 18-operation Go-client alphabet (a manager with two connected sockets; incl. the link breaking, which starts the reconnection machinery) over the in-process polling link and a 10-operation adapter alphabet (incl. a Broadcast whose argument cannot be encoded, recovered by the caller) (in-memory and session-aware) as a two-thread program, plus every server operation issued from inside an event handler, a disconnecting handler and an ack callback against two concurrent operations; all schedules to the deviation bound, each judged by the race detector (reports whose racing access lies in repository code), the deadlock detector and the held-mutex check. distinct_nontrivial = deviating schedules",
 		Scenarios: scenarios,
 		Budget: func(tier string) time.Duration {
 			if tier == "thorough" {
